@@ -23,10 +23,10 @@ type e2eCase struct {
 	Size int     `json:"size,omitempty"`      // findcontent: content size
 	Keys int     `json:"keys,omitempty"`      // offer: number of keys
 	Drop int     `json:"drop"`                // index of the datagram that is lost (-1: none)
-	Dev  string  `json:"deviation,omitempty"` // "" = lost, "dup" = delivered twice, "swap" = delivered after its successor
+	Dev  string  `json:"deviation,omitempty"` // "" = lost, "dup" = delivered twice, "swap" = delivered after its successor, "cut" = this and every later datagram lost
 }
 
-func versionSets() [][]uint8 { return [][]uint8{{0}, {1}, {0, 1}} }
+func versionSets() [][]uint8 { return [][]uint8{{0}, {1}, {0, 1}, {1, 0}} }
 
 func shareVersion(a, b []uint8) bool {
 	for _, x := range a {
@@ -48,6 +48,12 @@ func e2eRun(r *mc.Report, c e2eCase, finish func(digest string)) (digest string,
 		b := newMNode(w, mnodeOpts{keyIdx: 32, versions: c.VBs, utpLimit: 5})
 		swapped := false
 		decide := func(idx int, d mdgram) pumpAction {
+			if c.Dev == "cut" {
+				if c.Drop >= 0 && idx >= c.Drop {
+					return drop // the link is dead from this datagram on
+				}
+				return deliver
+			}
 			if idx == c.Drop {
 				switch c.Dev {
 				case "dup":
@@ -66,7 +72,7 @@ func e2eRun(r *mc.Report, c e2eCase, finish func(digest string)) (digest string,
 		share := shareVersion(c.VA, c.VBs)
 		site := fmt.Sprintf("%s:%v-%v", c.Op, c.VA, c.VBs)
 		if c.Drop >= 0 {
-			site = c.Op + ":one-datagram-" + map[string]string{"": "lost", "dup": "duplicated", "swap": "reordered"}[c.Dev]
+			site = c.Op + ":one-datagram-" + map[string]string{"": "lost", "dup": "duplicated", "swap": "reordered", "cut": "and-all-later-ones-lost"}[c.Dev]
 		}
 		switch c.Op {
 		case "findcontent":
@@ -199,10 +205,14 @@ func e2eCasesFor(prop string, thorough bool) []e2eCase {
 					cs = append(cs, e2eCase{Prop: prop, Op: "findcontent", VA: v, VBs: v, Size: 5000, Drop: k, Dev: dev})
 				}
 			}
+			// the link dies for good at datagram k of a 20 kB transfer
+			for _, k := range lossIdx(96) {
+				cs = append(cs, e2eCase{Prop: prop, Op: "findcontent", VA: v, VBs: v, Size: 20_000, Drop: k, Dev: "cut"})
+			}
 		}
 	case "C09":
 		for _, v := range [][]uint8{{0}, {1}} {
-			for _, dev := range []string{"", "dup", "swap"} {
+			for _, dev := range []string{"", "dup", "swap", "cut"} {
 				for _, k := range lossIdx(90) {
 					cs = append(cs, e2eCase{Prop: prop, Op: "offer", VA: v, VBs: v, Keys: 2, Drop: k, Dev: dev})
 				}
@@ -251,7 +261,7 @@ func init() {
 				}
 				oldRun(r, &he)
 				if e.Shard == 0 {
-					r.Assume("end-to-end part: two real started nodes on the in-memory wire, FIFO delivery; one datagram lost, duplicated or swapped with its successor at every (quick: every 3rd) index of one transfer per version")
+					r.Assume("end-to-end part: two real started nodes on the in-memory wire, FIFO delivery; one datagram lost, duplicated or swapped with its successor, or the link dead from that datagram on, at every (quick: every 3rd) index of one transfer per version")
 				}
 				return
 			}
